@@ -316,16 +316,16 @@ def wEdgeBranch : WorkflowDef Nat :=
     branches := [("p", { ends := ["n", "m"], cond := fun _ => .ok ["m"] }),
                  ("q", { ends := ["n", "x"], cond := fun _ => .ok ["x"] })] }
 
-/-- **edge_and_branch_schedule_dependent** (negation witness for the goal without
-    `WF.noEdgeAndBranch`; the shape of the known C02 finding of DESIGN.md §5). When p finishes
-    before q, the dependency p→n overwrites the skip p's branch reported: n runs, the result
-    is n's output. When q finishes first, n is already fully skipped when p's dependency
-    arrives: n never runs and END gets the zero value. Both runs succeed. -/
-theorem edge_and_branch_schedule_dependent :
+/-- **edge_beats_unselected_branch** (the shape of the former C02 finding of DESIGN.md §5,
+    repaired in /repo: a successor a node also triggers through a plain control edge is never
+    reported skipped by that node's branches). Whether p finishes before q or after it, n —
+    reached from p by a dependency and deselected by p's branch — runs, and the result is n's
+    output: the run no longer depends on the completion order. -/
+theorem edge_beats_unselected_branch :
     okv (runEager natOps (compileW natOps wEdgeBranch) (fun _ => 0) 0) = some 7 ∧
-    (runEager natOps (compileW natOps wEdgeBranch) (fun _ => 0) 0).completed = ["p", "q", "m", "n", "x"] ∧
-    okv (runEager natOps (compileW natOps wEdgeBranch) (fun l => l.length - 1) 0) = some 0 ∧
-    (runEager natOps (compileW natOps wEdgeBranch) (fun l => l.length - 1) 0).completed = ["q", "x", "p", "m"] := by
+    okv (runEager natOps (compileW natOps wEdgeBranch) (fun l => l.length - 1) 0) = some 7 ∧
+    "n" ∈ (runEager natOps (compileW natOps wEdgeBranch) (fun _ => 0) 0).completed ∧
+    "n" ∈ (runEager natOps (compileW natOps wEdgeBranch) (fun l => l.length - 1) 0).completed := by
   decide
 
 /-- START→a→b→END and a node o that nobody declared a dependency for -/
